@@ -272,6 +272,25 @@ Proof.
   intros HA. unfold style_of. rewrite codes_of_texts_app. apply sgr_replay. now apply complete_codes_of_texts.
 Qed.
 
+(* ---------- relations on states the rendering proofs can work modulo ---------- *)
+Lemma apply_act_teq_disp t t' a : teq_disp t t' -> teq_disp (apply_act t a) (apply_act t' a).
+Proof. intros H e. destruct a; simpl; unfold tset; auto; destruct (effect_beq _ _); auto. Qed.
+Lemma run_teq_disp l : forall t t', teq_disp t t' -> teq_disp (run t l) (run t' l).
+Proof. unfold run. induction l as [|a l IH]; simpl; intros; auto. apply IH. now apply apply_act_teq_disp. Qed.
+Lemma sgr_teq_disp class p t t' : teq_disp t t' -> teq_disp (sgr class t p) (sgr class t' p).
+Proof. intros H. unfold sgr. now apply run_teq_disp. Qed.
+
+Record rel_ok (R : tstate -> tstate -> Prop) : Prop := {
+  R_refl : forall t, R t t;
+  R_trans : forall a b c, R a b -> R b c -> R a c;
+  R_teq : forall a b, teq a b -> R a b;
+  R_sgr : forall a b p, R a b -> R (sgr spec_class a p) (sgr spec_class b p) }.
+
+Lemma teq_rel_ok : rel_ok teq.
+Proof. constructor; [apply teq_refl|apply teq_trans|auto|intros; now apply sgr_teq]. Qed.
+Lemma teq_disp_rel_ok : rel_ok teq_disp.
+Proof. constructor; [apply teq_disp_refl|apply teq_disp_trans|apply teq_teq_disp|intros; now apply sgr_teq_disp]. Qed.
+
 (* ---------- non-vacuity ---------- *)
 Example wf_texts_ex :
   Forall (fun t => wf_setting t = true)
